@@ -16,6 +16,7 @@ from mon import refbufr as R
 from mon import nested
 from mon.compare import td_of, opsig
 from mon.gen import cases
+from mon.gen import failures
 from mon.checks.c06 import OPEN_SHAPES
 from mon.gen.shapes import SHAPES, EdgePolicy
 
@@ -366,6 +367,7 @@ def run(ctx):
                         continue
                     spec = dict(origin='shape', shape=name, ids=ids, compressed=comp, nsub=msg.nsub, hex=msg.bytes.hex())
                     try:
+                        failures.maybe(ctx, [dec], [enc], every=6)
                         m = dec.process(msg.bytes)
                     except Exception as e:
                         ctx.count('decode_raises')
@@ -381,6 +383,7 @@ def run(ctx):
             if not ctx.mine(bi):
                 continue
             try:
+                failures.maybe(ctx, [dec], [enc], every=6)
                 m = dec.process(msg.bytes)
             except Exception:
                 ctx.count('decode_raises')
@@ -395,6 +398,7 @@ def run(ctx):
                 if not ctx.mine(n):
                     continue
                 try:
+                    failures.maybe(ctx, [dec], [enc], every=6)
                     m = dec.process(msg.bytes)
                 except Exception:
                     ctx.count('decode_raises')
@@ -450,6 +454,7 @@ def run(ctx):
                 ctx.count('gen_unsupported')
                 continue
             try:
+                failures.maybe(ctx, [dec], [enc], every=6)
                 m = dec.process(msg.bytes)
             except Exception:
                 ctx.count('decode_raises')
